@@ -14,6 +14,8 @@ import CG.Driver.HTs
 import CG.Driver.HLag
 import CG.Driver.HNx
 import CG.Driver.HNxMin
+import CG.Driver.HNxReach
+import CG.Driver.HNxTopo
 
 /-- stateless handlers: first token of a line selects the handler -/
 def handlers : List (String × (List String → String)) := [
@@ -33,6 +35,8 @@ def handlers : List (String × (List String → String)) := [
   ("lag", CG.Driver.Lag.handle),
   ("nx", CG.Driver.Nx.handle),
   ("nxmin", CG.Driver.NxMin.handle),
+  ("nxreach", CG.Driver.NxReach.handle),
+  ("nxtopo", CG.Driver.NxTopo.handle),
   ("gecho", fun args => match args with
     | [t] => (match CG.Driver.GraphCodec.decGraph? t with | some g => CG.Driver.GraphCodec.encGraph g | none => "bad-op")
     | _ => "bad-op")
